@@ -146,7 +146,9 @@ func (s *Scope) Get(sym Symbol) Object {
 func (s *Scope) get(name string) Object {
 	if pkg, vname, private := UnpackName(name); pkg != nil {
 		if vv := pkg.GetVarVal(vname); vv != nil && (vv.Export || private) {
-			return vv.Value()
+			if value := vv.Value(); value != Unbound {
+				return value
+			}
 		}
 		UnboundVariablePanic(s, 0, Symbol(name), "Variable %s is unbound.", name)
 	}
@@ -230,7 +232,7 @@ func (s *Scope) Set(sym Symbol, value Object) {
 	}
 	if pkg, name, private := UnpackName(string(sym)); pkg != nil {
 		if vv := pkg.GetVarVal(name); vv != nil && (vv.Export || private) {
-			pkg.Set(name, value)
+			pkg.Set(name, value, private)
 		}
 		return
 	}
